@@ -21,7 +21,9 @@ TECHNIQUE = (
 )
 RULE = (
     "case = C02-style dataset (1-3 files, folds 2-6, key arity, workers, chunk sizes) with estimator Lin, Cubic "
-    "(monotone non-linear) or LinBoth (decision_function plus predict_proba), test_fdr in {0.0731, 0.1279, 0.2113, 0.31}, strong- or weak-signal data. Non-trivial: "
+    "(monotone non-linear), LinBoth (decision_function plus predict_proba) or LinTied (output quantised to half units: "
+    "tie groups of targets and decoys straddle the acceptance boundary), test_fdr in {0.0731, 0.1279, 0.2113, 0.31, 0.25, 0.5} "
+    "(the dyadic values are exactly representable, so a q-value can equal the threshold), strong- or weak-signal data. Non-trivial: "
     ">=3 folds or >=2 files, all folds calibrated, and at least one fold whose accepted set is a strict subset of its "
     "targets; or the explicit-error branch was taken. Distinct = distinct canonical JSON."
 )
@@ -31,7 +33,7 @@ ASSUMPTIONS = [
     "cases in which an exact q-value lies within 3e-7 (float32 rounding) of test_fdr are discarded as ambiguous",
     "tolerance 1e-9 (absolute, scores are O(1)) on anchors and affine residual",
 ]
-FDRS = (0.0731, 0.1279, 0.2113, 0.31)
+FDRS = (0.0731, 0.1279, 0.2113, 0.31, 0.25, 0.5)
 
 
 def budget(tier):
@@ -43,7 +45,7 @@ def budget(tier):
 @st.composite
 def _case(draw, tier):
     weak = draw(st.sampled_from([False, False, False, False, False, True]))
-    c = draw(brewlib.cv_case(tier, estimators=("Lin", "Cubic", "LinBoth"), fdrs=FDRS, weak=weak))
+    c = draw(brewlib.cv_case(tier, estimators=("Lin", "Cubic", "LinBoth", "LinTied"), fdrs=FDRS, weak=weak))
     c["cap_kind"] = draw(st.sampled_from(["none", "none", "active"]))
     if weak:
         c["test_fdr"] = draw(st.sampled_from([0.0731, 0.1279]))
@@ -127,6 +129,11 @@ def check(case):
         dmed = float(np.median(x[~tg])) if (~tg).any() else None
         if dmed is None:
             continue
+        if t0 == dmed:
+            # lowest accepted target coincides with the decoy median: the documented formula divides by zero;
+            # outside the statement's domain (possible only with tied raw outputs)
+            classes.append("fold-out-of-domain-zero-span")
+            continue
         A = np.column_stack([x, np.ones_like(x)])
         coef, *_ = np.linalg.lstsq(A, y, rcond=None)
         resid = float(np.max(np.abs(A @ coef - y)))
@@ -151,8 +158,13 @@ def check(case):
                 f"file {fi} fold-model {tok}: decoy median maps to {y_dm!r}, not -1")
         if len(acc) < int(tg.sum()):
             strict_subset = True
+        qx = tdc_ref(x.tolist(), tg.tolist(), True)
+        if any(qx[i] == Fraction(thr) for i in acc):
+            classes.append("accepted-target-exactly-at-threshold")
+        if any((x == t0) & ~tg):
+            classes.append("decoy-tied-with-lowest-accepted-target")
     if len(dfs) > 1:
         classes.append("multi-file")
     nontrivial = (case["folds"] >= 3 or len(dfs) >= 2) and strict_subset and in_domain_blocks == len(blocks)
-    return {"nontrivial": nontrivial, "classes": classes,
+    return {"nontrivial": nontrivial, "classes": sorted(set(classes)),
             "counters": {"blocks_checked": len(blocks), "blocks_in_domain": in_domain_blocks}}
